@@ -1,7 +1,7 @@
 ------------------------------- MODULE MCRing -------------------------------
 (* Bounded model checking of the ring model: index invariants, refinement of  *)
 (* the bounded FIFO of AbsSeq (C05), size agreement (C15).                    *)
-EXTENDS Ring, AbsSeq
+EXTENDS Ring, AbsSeq, Json
 
 \* invariants of the representation
 IndexInv == /\ size = CalcSize(start, end, full)
@@ -19,4 +19,5 @@ Refines ==
 FullIffSizeCap == full = RingFull(Abs(Cur), Cap)       \* Full() <=> Size() = c
 SizeAgrees == size = Len(Abs(Cur))                      \* C15
 View == core
+Fid == PrintT("S|" \o ToJson(<<[i \in 1..Cap |-> values[i - 1]], start, end, full, size>>))
 =============================================================================
